@@ -71,6 +71,13 @@ def check(run):
     run.attempt(count, run, p)
     run.attempt(mirrors, run, p)
     run.attempt(verdicts, run, p, km)
+    from .common import observed_rule
+    calc = p.cls('PandasConstraintCalculator')
+    n_obs = observed_rule(run, 'C02-OBSERVED', p, list(calc.methods.values()),
+                          'verdicts are taken on the values present: no calc_* method of the pandas calculator reads a categorical column\'s '
+                          'declared levels (.cat.categories, an unfiltered value_counts()) - a distinct count or length taken from unused levels '
+                          'turns no_duplicates and allowed_values verdicts wrong in both directions')
+    run.floor('C02-OBSERVED', n_obs, 15)
     run.attempt(sem, run, p, km)
     run.attempt(fuzz, run, p, km)
     from .common import keyorder_rule
@@ -407,7 +414,7 @@ def verdicts(run, p, km):
     bad = []
     k = 0
     for sign in ('positive', 'non-negative', 'zero', 'non-positive', 'negative', 'null', None):
-        for m, M in ((1, 5), (0, 5), (0, 0), (-5, 0), (-5, -1), (-5, 5), (None, None), (0.5, 0.5), (-0.0, 0.0)):
+        for m, M in ((1, 5), (0, 5), (0, 0), (-5, 0), (-5, -1), (-5, 5), (None, None), (0.5, 0.5), (-0.0, 0.0), (False, True), (True, True), (False, False)):
             got = eval_verifier(p, ver, 'sign', sign, {'calc_min': m, 'calc_max': M})
             k += 1
             if sign is None or m is None:
